@@ -860,6 +860,17 @@ func genC02(r *simrt.Rand, tier string) any {
 			}
 		}
 		sc.Faults = append(sc.Faults, f)
+		if r.Pct(15) {
+			// a CREATE that asks for an initial size, with the truncation that applies it failing: the request fails
+			// and must not leave the file it has just made behind
+			for i := range sc.Ops {
+				if sc.Ops[i].Op == "CREATE" && r.Pct(60) {
+					sz := uint64(1 + r.Int(40))
+					sc.Ops[i].SA.Size = &sz
+				}
+			}
+			sc.Faults = []simfs.Fault{{Op: "Truncate", Nth: 1 + r.Int(3), Kind: []string{"eio", "enospc"}[r.Int(2)]}}
+		}
 	}
 	return sc
 }
@@ -867,7 +878,7 @@ func genC02(r *simrt.Rand, tier string) any {
 func init() {
 	Register(&Prop{
 		ID: "C02", Level: "exploration",
-		Rule:    "one case = one sequential history of 15-60 LOOKUP/CREATE/MKDIR/SYMLINK/REMOVE/RMDIR/RENAME/READDIR(PLUS)/GETATTR/READLINK ops over a 5-letter alphabet, depth <=3, through handles from earlier replies (including handles of removed/renamed objects, non-directory and invalid names), run in lock-step against two real servers in one bubble: one with the drawn attribute/negative/directory cache configuration and think times on the fake clock, one with caches at minimal TTL and size. Oracles per operation: success/failure equals the POSIX tree model, backend tree == model tree, listings == model children, the two servers' decoded replies are equal (timestamps excluded); 20% of the cases are the concurrent class: C29's workload (2-4 clients on separate connections, shared directories and handles, renames, removes, writes, peeks at each other's names, caches enabled with hour-long lifetimes, optional backend stalls and errors, every interleaving decided by the seeded scheduler) followed, once every request has been answered, by a fresh client that looks every name up: a name the backend has must be found, a name it lacks must not (caches never hide a mutation the server completed); 25% of the cases instead inject one backend error (EIO/ENOSPC/EACCES on create, mkdir, symlink, remove, rename, chmod, chown, close, lstat, ...) or one slow mutating backend call (16-28 s: longer than the procedure's own time-out, shorter than the request time-out) into some request of a single server: a faulted request that fails must leave the backend tree exactly as it was, one that succeeds must have its complete effect, and every later request is judged exactly. non-trivial = >=1 negative LOOKUP later made positive, >=1 READDIR after a mutation of that directory, >=1 REMOVE/RMDIR/RENAME of something previously looked up; distinct by event digest",
+		Rule:    "one case = one sequential history of 15-60 LOOKUP/CREATE/MKDIR/SYMLINK/REMOVE/RMDIR/RENAME/READDIR(PLUS)/GETATTR/READLINK ops over a 5-letter alphabet, depth <=3, through handles from earlier replies (including handles of removed/renamed objects, non-directory and invalid names), run in lock-step against two real servers in one bubble: one with the drawn attribute/negative/directory cache configuration and think times on the fake clock, one with caches at minimal TTL and size. Oracles per operation: success/failure equals the POSIX tree model, backend tree == model tree, listings == model children, the two servers' decoded replies are equal (timestamps excluded); 20% of the cases are the concurrent class: C29's workload (2-4 clients on separate connections, shared directories and handles, renames, removes, writes, peeks at each other's names, caches enabled with hour-long lifetimes, optional backend stalls and errors, every interleaving decided by the seeded scheduler) followed, once every request has been answered, by a fresh client that looks every name up: a name the backend has must be found, a name it lacks must not (caches never hide a mutation the server completed); 25% of the cases instead inject one backend error (EIO/ENOSPC/EACCES on create, mkdir, symlink, remove, rename, chmod, chown, close, lstat, ...) or one slow mutating backend call (16-28 s: longer than the procedure's own time-out, shorter than the request time-out) into some request of a single server: a faulted request that fails must leave the backend tree exactly as it was, one that succeeds must have its complete effect, and every later request is judged exactly (15% of the error cases give CREATE calls an initial size and fail the truncation that applies it). non-trivial = >=1 negative LOOKUP later made positive, >=1 READDIR after a mutation of that directory, >=1 REMOVE/RMDIR/RENAME of something previously looked up; distinct by event digest",
 		Gen:     genC02,
 		New:     func() any { return &SeqScn{} },
 		Run:     runSeq("C02."),
@@ -1050,7 +1061,12 @@ func genC04(r *simrt.Rand, tier string) any {
 			if r.Pct(50) {
 				sa.Size = nil // no truncation step (which drops the cached attributes on its own)
 			}
-			sc.Ops = append(sc.Ops, Op{Op: "LOOKUP", H: dh, Name: fp[strings.LastIndexByte(fp, '/')+1:]}, Op{Op: "SETATTR", H: fh, SA: sa},
+			mid := Op{Op: "SETATTR", H: fh, SA: sa}
+			if r.Pct(30) {
+				// ... or an UNCHECKED CREATE of the existing file that sets size and mode (truncate, then chmod)
+				mid = Op{Op: "CREATE", H: dh, Name: fp[strings.LastIndexByte(fp, '/')+1:], How: 0, SA: SA{Size: &sz, Mode: &md}}
+			}
+			sc.Ops = append(sc.Ops, Op{Op: "LOOKUP", H: dh, Name: fp[strings.LastIndexByte(fp, '/')+1:]}, mid,
 				Op{Op: "LOOKUP", H: dh, Name: fp[strings.LastIndexByte(fp, '/')+1:]}, Op{Op: "GETATTR", H: fh}, Op{Op: "READDIRPLUS", H: dh, Count: 8192})
 		}
 	}
@@ -1082,7 +1098,7 @@ func mixGen(own func(*simrt.Rand, string) any, ownPct int, kind string) func(*si
 func init() {
 	Register(&Prop{
 		ID: "C04", Level: "exploration",
-		Rule:    "one case = a sequential history over a tree with files, directories and symlinks (incl. dangling): SETATTR with arbitrary 12-bit modes and type bits in the mode word, GETATTR, LOOKUP, READDIRPLUS, ACCESS, READ, READLINK, WRITE, namespace operations, clock advances, per-run cache configuration, in a quarter of these with 1-3 injected backend errors / short transfers as in C01 (the faulted request is exempt, every later reply is judged exactly; half of these end with the half-failed-SETATTR motif: LOOKUP, a SETATTR of mode and times, with or without size, whose chmod/chown/chtimes fails, then LOOKUP, GETATTR and READDIRPLUS of the object) (60%), or one of the C01/C02/C03 workloads (40%); monitor on every attribute block of every reply (fattr3, post_op_attr, wcc after, entryplus3): type and fileid constant while the path is unchanged; type, size and permission bits equal to the backend lstat at reply time; 20% of the cases are the concurrent class: C29's workload (2-4 clients on separate connections, shared directories and handles, renames, removes, writes, peeks at each other's names, caches enabled with hour-long lifetimes, optional backend stalls and errors, every interleaving decided by the seeded scheduler) followed, once every request has been answered, by a fresh client that looks every name up: type, size and permission bits in the reply equal the backend's lstat; non-trivial = at least one operation executed; distinct by event digest",
+		Rule:    "one case = a sequential history over a tree with files, directories and symlinks (incl. dangling): SETATTR with arbitrary 12-bit modes and type bits in the mode word, GETATTR, LOOKUP, READDIRPLUS, ACCESS, READ, READLINK, WRITE, namespace operations, clock advances, per-run cache configuration, in a quarter of these with 1-3 injected backend errors / short transfers as in C01 (the faulted request is exempt, every later reply is judged exactly; half of these end with the half-failed motif: LOOKUP, then a SETATTR of mode and times, with or without size - or (30%) an UNCHECKED CREATE of the existing file with size and mode - whose chmod/chown/chtimes fails, then LOOKUP, GETATTR and READDIRPLUS of the object) (60%), or one of the C01/C02/C03 workloads (40%); monitor on every attribute block of every reply (fattr3, post_op_attr, wcc after, entryplus3): type and fileid constant while the path is unchanged; type, size and permission bits equal to the backend lstat at reply time; 20% of the cases are the concurrent class: C29's workload (2-4 clients on separate connections, shared directories and handles, renames, removes, writes, peeks at each other's names, caches enabled with hour-long lifetimes, optional backend stalls and errors, every interleaving decided by the seeded scheduler) followed, once every request has been answered, by a fresh client that looks every name up: type, size and permission bits in the reply equal the backend's lstat; non-trivial = at least one operation executed; distinct by event digest",
 		Gen:     mixGen(genC04, 60, "C04"),
 		New:     func() any { return &SeqScn{} },
 		Run:     runSeq("C04."),
